@@ -65,9 +65,10 @@ def discharge(ob, world_axioms, timeout_ms=20000, want_model=False, retry=True, 
                     s, r = s3, r3
                     break
                 reasons.append(s3.reason_unknown())
-            if r == z3.unknown and any(('timeout' in x or 'cancel' in x) for x in reasons):
-                # some attempt ran out of time (a loaded machine): one patient attempt of each kind before giving up,
-                # so that a verdict does not flip because all cores are busy
+            if r == z3.unknown and ('timeout' in reasons[0] or 'cancel' in reasons[0]):
+                # the FIRST (plain e-matching) attempt ran out of time - proofs normally take well under a second of its 20 s -
+                # so the machine is overloaded: one patient attempt of each kind before giving up, so that a verdict does not
+                # flip because all cores are busy (an MBQI retry that times out is the normal fate of a false goal: no retry)
                 for mb in (False, True):
                     s4 = z3.Solver()
                     s4.set('timeout', timeout_ms * 3)
